@@ -422,11 +422,18 @@ func getAccountsForPrefix(accounts *analyzer.AccountIndex, prefix string) []stri
 		return accounts.All
 	}
 
-	if accs, ok := accounts.ByPrefix[prefix]; ok {
-		return accs
+	// matching ignores letter case, so every spelling of the prefix contributes
+	var accs []string
+	for key, names := range accounts.ByPrefix {
+		if strings.EqualFold(key, prefix) {
+			accs = append(accs, names...)
+		}
 	}
-
-	return accounts.All
+	if len(accs) == 0 {
+		return accounts.All
+	}
+	sort.Strings(accs)
+	return accs
 }
 
 func extractCurrentTagName(line string, pos int) string {
